@@ -364,7 +364,16 @@ def radio_loop_key(nn, trace_kinds=()):
     def key(it, st, fr):
         regs = st.extra.get("regs", {})
         rk = tuple(sorted((r, _canon(x)) for r, x in regs.items() if r != 7))
-        env = tuple(sorted((k, _canon(v)) for k, v in st.envs[fr.fid].items()))
+        rng = st.extra.get("symrng", {})
+        # a local that holds a symbol is known by what the path has learnt about it too (a transmission result found True / False)
+        nz, zr = st.extra.get("nonzero", ()), st.extra.get("zero", ())
+
+        def learnt(v):
+            if not isinstance(v, Sym):
+                return None
+            k_ = v.key()
+            return (rng.get(v.name), True if k_ in nz else (False if k_ in zr else None))
+        env = tuple(sorted((k, _canon(v), learnt(v)) for k, v in st.envs[fr.fid].items()))
         return (rk, repr(st.extra.get("ce")), env, _watched(st), _trace_print(st, trace_kinds) if trace_kinds else ())
     return key
 
